@@ -7,10 +7,13 @@
    (wf_block: one block per hash, number = parent number + 1), started on the
    database Genesis.Commit leaves ([pre_open g]; NewBlockChain adds one
    redundant LastHeader write to it, see C02_example).
-   Not covered by these theorems (covered by the correspondence runs only):
-   close/reopen between imports, SetHead (which makes the head lighter by design). *)
+   C02_with_reopen extends monotonicity, additivity and "no stored block is heavier
+   than the head" to histories that also close and reopen the database anywhere
+   (the LastBlock pointer always names the in-memory head, so loadLastState finds
+   it again).  Not covered: SetHead (which makes the head lighter by design) and
+   pruning nodes (direct oracle only). *)
 From Coq Require Import NArith List.
-From AQ Require Import Chain.Store Chain.ChainSpec Chain.ChainProofs Chain.ChainAccept Chain.ChainWitness.
+From AQ Require Import Chain.Store Chain.ChainSpec Chain.ChainProofs Chain.ChainAccept Chain.Crash Chain.ChainReopen Chain.ChainWitness.
 Import ListNotations.
 Local Open Scope N_scope.
 
@@ -68,6 +71,27 @@ Theorem C02_valid_batch_accepted : forall (U : N -> sblock) (g : header),
     header_of (dsk s) (h_hash (b_hdr b)) <> None /\ td_or0 (dsk s) (h_hash (b_hdr b)) <= head_td s.
 Proof. exact valid_batch_accepted. Qed.
 Print Assumptions C02_valid_batch_accepted.
+
+(* the same guarantees when the node is closed and reopened anywhere in the history:
+   monotone head TD, additive TDs, the head is stored and named by LastBlock, no
+   stored block is heavier; plus block-data completeness at every crash prefix *)
+Theorem C02_with_reopen : forall (U : N -> sblock) (g : header),
+  U (h_hash g) = (g, []) -> h_number g = 0 ->
+  forall (d0 : disk), h_hash g <> 0 -> d0 = genesis_disk g ->
+  forall ops1 ops2,
+  imports_and_reopens (ops1 ++ ops2) ->
+  (forall b, In b (blocks_of (ops1 ++ ops2)) -> wf_block U b /\ h_hash (b_hdr b) <> 0) ->
+  let s1 := run ops1 (pre_open g) in
+  let s := run (ops1 ++ ops2) (pre_open g) in
+  head_td s1 <= head_td s /\
+  (forall h hd, header_of (dsk s) h = Some hd -> h <> h_hash g ->
+     exists t pt, td_of (dsk s) h = Some t /\ td_of (dsk s) (h_parent hd) = Some pt /\ t = pt + h_diff hd) /\
+  block_of (dsk s) (s_hash (cur_block s)) = Some (cur_block s) /\
+  hb (dsk s) = s_hash (cur_block s) /\
+  (forall h t, header_of (dsk s) h <> None -> td_of (dsk s) h = Some t -> t <= head_td s) /\
+  (forall k, block_data_complete (crash_disk d0 (log_of s) k)).
+Proof. exact c02_with_reopen. Qed.
+Print Assumptions C02_with_reopen.
 
 (* a reorganisation never fails on blocks whose stored ancestry reaches genesis *)
 Theorem C02_reorg_total : forall (g : header) (fuel : nat) (o n : sblock) (s : st),
